@@ -105,6 +105,7 @@ from .value import (
     Value,
     _HashableValue,
     annotate_value,
+    flatten_values,
     unite_values,
 )
 
@@ -773,8 +774,23 @@ def _type_from_subscripted_value(
     if root is typing.Union:
         return unite_values(*[_type_from_value(elt, ctx) for elt in members])
     elif is_typing_name(root, "Literal"):
-        if all(isinstance(elt, KnownValue) for elt in members):
-            return unite_values(*members)
+        literals = []
+        for elt in members:
+            if (
+                isinstance(elt, _SubscriptedValue)
+                and isinstance(elt.root, KnownValue)
+                and is_typing_name(elt.root.val, "Literal")
+            ):
+                # Literal[Literal[1], 2] is Literal[1, 2]
+                literals.append(_type_from_value(elt, ctx))
+            else:
+                literals.append(elt)
+        if all(
+            isinstance(subval, KnownValue)
+            for elt in literals
+            for subval in flatten_values(elt)
+        ):
+            return unite_values(*literals)
         else:
             ctx.show_error(f"Arguments to Literal[] must be literals, not {members}")
             return AnyValue(AnySource.error)
